@@ -80,7 +80,7 @@ FAMILY_W = [6, 3, 2, 3, 1, 1, 2, 3, 3, 5, 1]
 C11_RECIPES = ["plain", "plain", "plain", "nm_camel", "nm_camel_shared", "nm_as_list", "nm_omit_default", "nm_extra_forbid",
                "nm_extra_collect", "chain_node_children", "chain_int_last", "chain_int_shared", "scoped_int",
                "scoped_node_value", "scoped_linked_head", "enum_by_name", "validator_inner", "dumper_int_str", "dumper_scoped",
-               "asis_m2", "unsupported_fix", "nm_snake_only", "chain_int_first", "nm_extra_forbid_all", "flag_names"]
+               "asis_m2", "unsupported_fix", "nm_snake_only", "chain_int_first", "nm_extra_forbid_all", "flag_names", "nm_scoped_upper", "nm_scoped_upper", "nm_scoped_node", "nm_maps", "nm_maps"]
 REPLACE_OPTS = [{"strict_coercion": True}, {"strict_coercion": False}, {"debug_trail": "ALL"}, {"debug_trail": "FIRST"},
                 {"debug_trail": "DISABLE"}, {"hide_traceback": False}, {"strict_coercion": False, "debug_trail": "FIRST"}]
 CONV_CALL_RECIPES = ["link_b_c", "link_a_c", "coerce_int_str", "coerce_int_hash", "link_title"]
@@ -105,6 +105,12 @@ def gen_c11(seed, cfg=None):  # noqa: C901, PLR0912, PLR0915
         focus_types = rng.sample(focus_types, rng.randint(3, 8))
     handles = [{"base": "Retort", "recipe": rng.choice(C11_RECIPES),
                 "opts": {"strict_coercion": rng.random() < 0.65, "debug_trail": rng.choice(["ALL", "ALL", "FIRST", "DISABLE"])}}]
+    about = [t for t in pools.RECIPE_TYPES.get(handles[0]["recipe"], []) if t in pools.TYPES]
+    r_own = rng.random()
+    if r_own < 0.12:
+        handles[0]["recipe_as"] = "generator"      # client fault: one-shot iterable as recipe
+    elif r_own < 0.22:
+        handles[0]["recipe_as"] = "mutated"        # client fault: the recipe list is refilled after construction
     morph = [0]
     conv = []
     if rng.random() < 0.25:
@@ -123,7 +129,15 @@ def gen_c11(seed, cfg=None):  # noqa: C901, PLR0912, PLR0915
     prog = []
     callables = []   # (kind, type or conv)
 
+    used = []
+
     def pick_type():
+        if used and rng.random() < 0.35:
+            partners = [p for p in pools.PARTNERS.get(rng.choice(used), []) if p in pools.TYPES]
+            if partners:
+                return rng.choice(partners)    # a confusable neighbour of a type this history has already used
+        if about and rng.random() < 0.45:
+            return rng.choice(about)              # a type the retort's recipe is about
         return rng.choice(focus_types) if rng.random() < 0.85 else rng.choice(all_types)
 
     for _ in range(n_ops):
@@ -160,6 +174,8 @@ def gen_c11(seed, cfg=None):  # noqa: C901, PLR0912, PLR0915
             # the module-level retorts are private objects: a client cannot derive from them
             h = rng.choice([x for x in morph if bases[x] == "Retort"])
             op = {"op": "extend", "h": h, "recipe": rng.choice(C11_RECIPES[3:])}
+            if rng.random() < 0.2:
+                op["as"] = "generator"
             bases.append(bases[h])
             morph.append(n_handles)
             n_handles += 1
@@ -170,6 +186,7 @@ def gen_c11(seed, cfg=None):  # noqa: C901, PLR0912, PLR0915
         else:
             h = rng.choice(morph)
             t = pick_type()
+            used.append(t)
             rr = rng.random()
             if rr < 0.50:
                 op = {"op": "load", "h": h, "t": t, "d": rng.choice(pools.battery(t))}
@@ -705,7 +722,7 @@ def summarize(scn, res):
     if res.get("fired"):
         nontrivial = True
     return {"hist": digest([scn["handles"], scn["ops"], scn.get("faults"), scn.get("norm_cache")]), "nontrivial": nontrivial,
-            "profile": scn.get("profile"), "ops": len(scn["ops"]), "stats": st,
+            "profile": scn.get("profile"), "ops": len(scn["ops"]), "stats": st, "sweep": bool(scn.get("sweep")),
             "fired_sites": [f["at"] for f in res.get("fired", [])],
             "kinds": [o["op"] for o in scn["ops"]]}
 
@@ -754,6 +771,7 @@ def coverage(oks, tier):
         "ops_compared_with_reference": agg["compared"],
         "argument_snapshots_compared": agg["alias_checks"],
         "kept_snapshots_rechecked": agg["snapshots_rechecked"],
+        "crash_point_sweep_runs": sum(1 for r in oks if r["summary"].get("sweep")),
         "op_kinds": dict(kinds),
         "interrupt_sites_top": dict(sites.most_common(12)),
         "distinct_interrupt_sites": len(sites),
